@@ -16,6 +16,7 @@ Policy (deliberately simple, stated in DESIGN.md section 9):
 All original functions stay in the fact base; only the bodies of callers grow.
 """
 import copy
+import re
 
 from .mir import Fn, callee_name, strip_generics
 
@@ -210,6 +211,34 @@ def _lower_for_each(F, f, raw, blk, t):
     return True
 
 
+
+def _instantiate(graw, t):
+    """a generic helper is inlined at a concrete call: write the call's type arguments into the copied body (types of locals, the type
+    arguments recorded at its own calls, drop types), so that `mem::take::<Vec<T>>` inside `SideTable<T>::take_all` reads `Vec<OsIpcChannel>`"""
+    gp = graw.get("gparams") or []
+    ga = t.get("generics") or []
+    if not gp or len(gp) != len(ga):
+        return graw
+    sub = [(n, a) for n, a in zip(gp, ga) if re.match(r"^[A-Za-z_][A-Za-z0-9_]*$", n) and n != a]
+    if not sub:
+        return graw
+    pat = re.compile(r"\b(%s)\b" % "|".join(re.escape(n) for n, _ in sub))
+    m = dict(sub)
+
+    def fix(x):
+        if isinstance(x, str):
+            return pat.sub(lambda mo: m[mo.group(1)], x) if pat.search(x) else x
+        if isinstance(x, list):
+            return [fix(y) for y in x]
+        if isinstance(x, dict):
+            return {k: (fix(v) if k in ("t", "ty", "generics", "adt", "locals", "blocks", "st", "term", "rv", "lhs", "pl", "p", "a", "args", "dest", "kind", "on") else v) for k, v in x.items()}
+        return x
+    out = dict(graw)
+    out["locals"] = fix(graw["locals"])
+    out["blocks"] = fix(graw["blocks"])
+    return out
+
+
 def is_anchor(g):
     return any(strip_generics(callee_name(t)) in ANCHOR_SYSCALLS for _, t in g.calls(live_only=False))
 
@@ -386,6 +415,8 @@ def inline_function(F, f, cm, done, depth=0):
         if depth >= MAX_DEPTH:
             continue
         graw = inline_function(F, g, cm, done, depth + 1)
+        if mode == "call":
+            graw = _instantiate(graw, t)
         lo = len(locals_)
         bo = len(blocks)
         for l in graw["locals"]:
